@@ -171,7 +171,9 @@ func ascii(s string) string {
 	return q[1 : len(q)-1]
 }
 
-func tokStr(t chlex.Token) string { return fmt.Sprintf("%s(%s)@%d", t.Kind, ascii(short(t.Text, 60)), t.Pos) }
+func tokStr(t chlex.Token) string {
+	return fmt.Sprintf("%s(%s)@%d", t.Kind, ascii(short(t.Text, 60)), t.Pos)
+}
 
 // compare checks the statements rendered for value v against the statements rendered for the variant's two
 // harmless values (vx, vy: what the front end reads for them).  nil = the variant explains the statements completely.  carriers reports how many literals
@@ -218,12 +220,12 @@ func compare(got, bx, by []*stmt, va Variant, v, vx, vy string) (f *Finding, car
 				return &Finding{Reason: "benign_literal_undecodable", Detail: fmt.Sprintf("%v", x.bad[j]), Variant: va.Name, depth: depth}, 0
 			}
 			if g.bad[j] != nil {
-				return &Finding{Reason: "literal_undecodable", Detail: fmt.Sprintf("statement %d literal %s: %v", i, ascii(short(t.Text, 80)), ascii(g.bad[j].Error())), Variant: va.Name, depth: depth}, 0
+				return &Finding{Reason: "literal_undecodable", Detail: fmt.Sprintf("statement %d literal %+q: %s", i, short(t.Text, 80), ascii(g.bad[j].Error())), Variant: va.Name, depth: depth}, 0
 			}
 			if x.dec[j] == y.dec[j] {
 				if g.dec[j] != x.dec[j] {
 					return &Finding{Reason: "unrelated_literal_changed", Variant: va.Name, depth: depth, Observed: g.dec[j],
-						Detail: fmt.Sprintf("statement %d literal %s decodes to %q, harmless value gives %q", i, ascii(short(t.Text, 80)), g.dec[j], x.dec[j])}, 0
+						Detail: fmt.Sprintf("statement %d literal %+q decodes to %+q, harmless value gives %+q", i, short(t.Text, 80), g.dec[j], x.dec[j])}, 0
 				}
 				continue
 			}
@@ -243,11 +245,11 @@ func compare(got, bx, by []*stmt, va Variant, v, vx, vy string) (f *Finding, car
 			}
 			if !recognised {
 				return &Finding{Reason: "benign_value_not_decoded", Variant: va.Name, depth: depth, Observed: x.dec[j],
-					Detail: fmt.Sprintf("statement %d literal %s decodes to %q for the harmless value %q", i, ascii(short(x.toks[j].Text, 80)), x.dec[j], va.BX)}, carriers
+					Detail: fmt.Sprintf("statement %d literal %+q decodes to %+q for the harmless value %+q", i, short(x.toks[j].Text, 80), x.dec[j], va.BX)}, carriers
 			}
 			if !ok {
 				return &Finding{Reason: "literal_value_mismatch", Variant: va.Name, depth: depth + 1, Observed: g.dec[j],
-					Detail: fmt.Sprintf("statement %d literal %s decodes to %q", i, ascii(short(t.Text, 120)), g.dec[j])}, carriers
+					Detail: fmt.Sprintf("statement %d literal %+q decodes to %+q", i, short(t.Text, 120), g.dec[j])}, carriers
 			}
 		}
 	}
@@ -276,12 +278,15 @@ func classifyLike(lit, observed string) string {
 	if observed == "%"+pu.Replace(lit)+"%" {
 		return "like_backslash_unescaped"
 	}
-	enq := strings.Trim("'"+svEscape(lit)+"'", "'")
-	enq = pu.Replace(enq)
-	toks := chlex.Tokenize("'%" + enq + "%'")
-	if len(toks) == 1 && toks[0].Kind == chlex.StringLiteral {
-		if dec, err := chlex.DecodeString(toks[0]); err == nil && dec == observed {
-			return "like_quote_trim"
+	// the trim, with and without the backslash of the value doubled for LIKE (D15 fixed or not)
+	for _, body := range []string{lit, strings.Replace(lit, `\`, `\\`, -1)} {
+		enq := strings.Trim("'"+svEscape(body)+"'", "'")
+		enq = pu.Replace(enq)
+		toks := chlex.Tokenize("'%" + enq + "%'")
+		if len(toks) == 1 && toks[0].Kind == chlex.StringLiteral {
+			if dec, err := chlex.DecodeString(toks[0]); err == nil && dec == observed {
+				return "like_quote_trim"
+			}
 		}
 	}
 	return "like_pattern_mismatch"
